@@ -7,15 +7,15 @@ def main():
     q = chk.quick
     mc = games.mc_game(chk, depth=2 if q else 3, workers=8 if q else 16)
     # shallow walks (many transpositions) and deep walks
-    results, paths = games.walk_traces(chk, events=800 if q else 20000, files=8 if q else 32, max_depth=6 if q else 8,
+    results, paths = games.walk_traces(chk, events=800 if q else 12000, files=8 if q else 32, max_depth=6 if q else 8,
                                        label="shallow")
     n1, d1 = games.collect_walk(chk, results, paths)
-    results2, paths2 = games.walk_traces(chk, events=400 if q else 20000, files=4 if q else 16, label="deep")
+    results2, paths2 = games.walk_traces(chk, events=400 if q else 12000, files=4 if q else 16, label="deep")
     n2, d2 = games.collect_walk(chk, results2, paths2)
     # the same positions under different (high) clocks: walks with move repetitions from roots with clocks near 100 -
     # one position has one key whatever the counters say
     import os
-    results3, paths3 = games.walk_traces(chk, events=500 if q else 8000, files=2 if q else 8, max_depth=30, label="clocks",
+    results3, paths3 = games.walk_traces(chk, events=500 if q else 4000, files=2 if q else 8, max_depth=30, label="clocks",
                                          roots=os.path.join(vlib.VERIF, "data", "roots_c11.txt"))
     n3, d3 = games.collect_walk(chk, results3, paths3)
     n2 += n3
